@@ -113,7 +113,7 @@ pub fn run(lines: &[String], end: End, check_go: bool) -> Result<SessionResult, 
     let mut model = Model::new();
     let mut res = SessionResult::default();
     let mut pending_go: Option<(String, Pos)> = None; // unbounded go waiting for stop
-    let slack = Duration::from_millis(2000);
+    let slack = Duration::from_millis(5000);
     for line in lines {
         if !e.send(line) {
             res.complaints.push(format!("engine no longer accepts input at '{line}'"));
@@ -123,7 +123,7 @@ pub fn run(lines: &[String], end: End, check_go: bool) -> Result<SessionResult, 
         match first {
             "isready" => {
                 if e.wait_line(|l| l == "readyok", slack).is_none() {
-                    res.complaints.push(format!("no readyok within 2 s after 'isready' (session {:?})", lines));
+                    res.complaints.push(format!("no readyok within 5 s after 'isready' (session {:?})", lines));
                     break;
                 }
             }
@@ -177,7 +177,7 @@ pub fn run(lines: &[String], end: End, check_go: bool) -> Result<SessionResult, 
             let began = std::time::Instant::now();
             match e.wait_exit(slack) {
                 Some(_) => res.exited_in_ms = Some(began.elapsed().as_millis()),
-                None => res.complaints.push(format!("engine did not exit within 2 s of 'quit' (session {:?})", lines)),
+                None => res.complaints.push(format!("engine did not exit within 5 s of 'quit' (session {:?})", lines)),
             }
         }
         End::CloseStdin => {
@@ -185,7 +185,7 @@ pub fn run(lines: &[String], end: End, check_go: bool) -> Result<SessionResult, 
             let began = std::time::Instant::now();
             match e.wait_exit(slack) {
                 Some(_) => res.exited_in_ms = Some(began.elapsed().as_millis()),
-                None => res.complaints.push(format!("engine did not exit within 2 s of end-of-input (session {:?})", lines)),
+                None => res.complaints.push(format!("engine did not exit within 5 s of end-of-input (session {:?})", lines)),
             }
         }
         End::Leave => {}
